@@ -12,6 +12,7 @@ def jobs(ctx):
     for m in ('min', 'max'):
         j(2, 2, 3, m); j(1, 2, 3, m, 'nan'); j(1, 1, 3, m, 'sym'); j(1, 2, 2, m, subpix=2)
         j(101, 1, 2, m, stripe=(0, 98, 101)); j(1, 101, 2, m, stripe=(1, 98, 101))
+        j(1, 2, 257, m, stripe=(2, 0, 2))      # counts of computable costs around 256 (narrow integer types)
     if not ctx.quick:
         for m in ('min', 'max'):
             j(3, 4, 4, m); j(2, 2, 4, m, 'nan', subpix=4)
